@@ -198,6 +198,12 @@ class FunTerm:
                     return None
             elif isinstance(st, ast.Try):
                 r = self.block(st.body)
+                # a handler that does not re-raise resumes after a HALF-executed body (and may write on its own): what the names
+                # written in the body / the handler hold afterwards is not the body's summary
+                swallowing = [h for h in st.handlers if not (h.body and isinstance(h.body[-1], ast.Raise))]
+                if swallowing:
+                    for nm_ in _written_names(st.body) | set().union(*[_written_names(h.body) for h in swallowing]):
+                        self.env[nm_] = OPQ(f"{nm_} is written inside a try whose handler swallows the exception")
                 if r is not None:
                     return r
                 if st.orelse:
